@@ -14,7 +14,8 @@ ops
   esc <height> <id> <amount>
   watch <addr>*            watchesc (<height> <id>)*
   q
-  block <height> <p004> <flags6> <fee> <feeacct> <reward|x> <ntx> tx*
+  diff <castorIdHex> <count> <workingMiners>
+  block <height> <p004> <flags6> <fee> <feeacct> S <p010 0|1> <p019 0|1> <p025Block|x> <castorIdHex> <reward|x> <ntx> tx*
       tx = <hash> <req> <nonce> <typ> <srcStrHex> <src> <feeAddr> <srcNumHex> body
       body = e | j <datahex> | t <n> (<keyhex> <addr> <amt|x>)* | r <amount|x> <minerIdHex>
              | o <ok> <evicted> <msghex> <k> (<addr> <bal> <nonce>)*      (observed effect of an EVM transaction)
@@ -47,7 +48,7 @@ def hex20 (n : Nat) : String := toHex (padLeft 20 (natToBE n))
 def dump (d : DS) (s : St) : String :=
   let a := d.watch.map (fun x => hex20 x ++ ":" ++ toString (s.bal x) ++ ":" ++ toString (s.nonce x))
   let e := d.wesc.map (fun (h, i) => toString h ++ ":" ++ hex20 i ++ ":" ++ toString (s.escrow h i))
-  let m := s.miners.map (fun r => toHex (natToBE r.id) ++ ":" ++ toString r.typ ++ ":" ++ toString r.stake ++ ":"
+  let m := s.miners.map (fun r => toString r.id ++ ":" ++ toString r.typ ++ ":" ++ toString r.stake ++ ":"
     ++ (if r.hasAccount then hex20 r.account else "-") ++ ":" ++ toString r.status ++ ":" ++ (if r.alive then "1" else "0"))
   "st=" ++ ",".intercalate a ++ " esc=" ++ ",".intercalate e ++ " mi=" ++ ",".intercalate m
 
@@ -248,30 +249,45 @@ def step (d : DS) (line : String) : DS × String :=
     | some l => ({ d with wesc := l }, "ok")
     | none => (d, "bad-op")
   | ["q"] => (d, dump d d.st)
-  | "block" :: h :: p4 :: fl :: fee :: fa :: r0 =>
+  | "block" :: h :: p4 :: fl :: fee :: fa :: "S" :: b10 :: b19 :: b25 :: ca :: r0 =>
     let rwf? : Option ((Nat → St → Option RewardIn) × List String) :=
       match r0 with
       | "F" :: r1 => (rewardCfg? r1).map (fun (c, r) => (fun hh s => some (rewardInOf c hh s), r))
       | _ => (rewardIn? r0).map (fun (rw, r) => (fun _ _ => rw, r))
-    match nat? h, nat? p4, flags? fl, nat? fee, addr? fa, rwf? with
-    | some h, some p4, some fl, some fee, some fa, some (rwf, n :: r) =>
+    let far : Nat := 0xFFFFFFFFFFFFFFFF
+    let hdr? : Option Header := do
+      let h ← nat? h
+      let p4 ← nat? p4
+      let b10 ← nat? b10
+      let b19 ← nat? b19
+      let p25 ← (if b25 == "x" then some far else nat? b25)
+      let ca ← hexNat? ca
+      pure { height := h, p004Block := p4, p010Block := if b10 == 1 then h else far,
+             p019Block := if b19 == 1 then h else far, p025Block := p25, castor := ca }
+    match nat? h, nat? p4, flags? fl, nat? fee, addr? fa, rwf?, hdr? with
+    | some h, some _, some fl, some fee, some fa, some (rwf, n :: r), some hdr =>
       match (nat? n).bind (fun n => txs? n r) with
       | some (txs, []) =>
         if !observedOk txs then (d, "unmodelled")
+        else if hdr.p025Block + 36000 ≤ h then (d, "unmodelled")   -- second part of calcDifficulty
         else if hasEqualHashPair fl txs then (d, "unmodelled")
         else if (sortTxsAny fl txs).isNone then (d, "unmodelled")
         else
           let env : Env := ⟨fa, fee, noOther⟩
           let ids := fun (hh : Nat) => (d.wesc.filter (fun e => e.1 == hh)).map (·.2)
           let run := fun (ρ : Orders) =>
-            let res := execBlock ρ env fl ⟨h, p4⟩ (rwf h) (ids h ++ ids 0).eraseDups d.st txs
+            let res := execBlock ρ env fl hdr (rwf h) (ids h ++ ids 0).eraseDups d.st txs
             ("ev=" ++ ",".intercalate (res.evicted.map hex32) ++ " rc=" ++ showReceipts res.receipts
-              ++ " " ++ dump d res.st, res.st)
+              ++ " " ++ dump d res.st ++ " df=" ++ toString (res.st.diff hdr.castor) ++ ":" ++ toString res.st.working, res.st)
           match underRhos run with
           | some (o, s) => ({ d with st := s }, o)
           | none => (d, "rho-diff")
       | _ => (d, "bad-op")
-    | _, _, _, _, _, _ => (d, "bad-op")
+    | _, _, _, _, _, _, _ => (d, "bad-op")
+  | ["diff", ca, v, w] =>
+    match hexNat? ca, nat? v, nat? w with
+    | some ca, some v, some w => ({ d with st := { d.st with diff := upd d.st.diff ca v, working := w } }, "ok")
+    | _, _, _ => (d, "bad-op")
   | "ca" :: src :: n :: r =>
     match addr? src, nat? n with
     | some src, some n =>
